@@ -24,7 +24,7 @@ def all_pops(spec):
         pops.add(p)
     for k in (spec.get('migration_rates') or {}):
         pops.update(k.split('>'))
-    for e in (spec.get('events') or []) + (spec.get('added_events') or []):
+    for e in (spec.get('events') or []) + (spec.get('added_events') or []) + (spec.get('late_events') or []):
         pops.update(event_pops(e))
     return sorted(pops)
 
@@ -152,6 +152,8 @@ def events_coq(spec, pops, extra_sizes=None):
         evs.append(event_coq(e, pops))
     if extra_sizes:      # AbstractCoalescent.__init__ completes missing populations with size 1 at time 0
         evs.append(discrete_coq({p: {0.0: 1.0} for p in extra_sizes}, {}, pops))
+    for e in (spec.get('late_events') or []):      # added to the demography the Coalescent already holds
+        evs.append(event_coq(e, pops))
     return C.coqlist(evs)
 
 
